@@ -194,10 +194,10 @@ def runFn {α β : Type} (body : G α β) : Except PyExc β :=
   | .stop _ .outOfFuel => .error .OutOfFuel
   | .stop _ _ => .error .Other
 
-/-- `list(g)` of a generator given as its observation function `n ↦ G.run n body`, asked `fuel + 1` times:
-    the values if it returned by then, its exception, else `OutOfFuel` -/
+/-- `list(g)` of a generator given as its observation function `n ↦ G.run n body`, asked `fuel` times: the values
+    if it returned by then (fewer than `fuel` values), its exception, else `OutOfFuel` -/
 def listOf {α : Type} (fuel : Nat) (g : Nat → List α × Stop) : Except PyExc (List α) :=
-  match g (fuel + 1) with
+  match g fuel with
   | (o, .returned) => .ok o
   | (_, .raised e) => .error e
   | (_, _) => .error .OutOfFuel
